@@ -1,6 +1,7 @@
 (* Properties/C05.v — timers: never early (arithmetic), at most once, never after being cleared. *)
 From GN Require Import Common.Base Common.Int64 Model.Loop Model.LoopSrc Model.LoopTime Gen.LoopSkeleton
   Proofs.LoopFrame Proofs.LoopCtl Proofs.LoopTimers Proofs.LoopInv Proofs.LoopProps Proofs.LoopTime Cases.LoopCheck Proofs.LoopReplay.
+From GN Require Import Proofs.LoopProgress.
 Open Scope Z_scope.
 
 Theorem C05_one_shot_at_most_once : forall k s t, reach k s -> In t (timers s) -> tj_kind t <> TInterval -> (tj_calls t <= 1)%nat.
@@ -45,6 +46,20 @@ Print Assumptions C05_interval_period.
 Theorem C05_time_source : loop_time_translated = true.
 Proof. exact loop_time_source. Qed.
 Print Assumptions C05_time_source.
+
+(* "a timeout that is not cleared does run provided the loop keeps running", possibility form: in every reachable state in
+   which the run thread is at the head of its loop, a timeout that was set and has neither fired nor been cleared keeps run()
+   from leaving (the live-job count is positive: run_leave is not enabled) and can be served at once - its expiry, the select's
+   job arm, the delivery through jobChan and the call are all enabled, and running them starts its callback. (That the select
+   does take the job arm eventually is Go's select fairness; real time is outside the model.) *)
+Theorem C05_live_timeout_can_run : forall k s id t,
+  reach k s -> phase s = LHead -> find_t (timers s) id = Some t -> tj_kind t = TTimeout -> tj_cancelled t = false -> tj_h t <> HDone ->
+  step k s run_leave 0 0 = None /\
+  exists s', run_evs k s ((if match tj_h t with HArmed => true | _ => false end then [EP timer_fire id 0] else []) ++
+                          [EP run_select 0 2; EE e_delivered_timeout id 0 0; EP arm_job 0 0]) = Some s' /\
+             cbs s' = cbs s ++ [id] /\ phase s' = LHead.
+Proof. exact live_timeout_can_run. Qed.
+Print Assumptions C05_live_timeout_can_run.
 
 (* the text of eventloop/eventloop.go, and the order of its synchronisation points, are what the model was written against *)
 Theorem C05_source_tie : loop_funcs = expected_loop_funcs /\ loop_points = expected_loop_points.
